@@ -357,6 +357,15 @@ impl Interp {
                     Err(_) => "err".into(),
                 }
             }
+            ["ss.race" | "ss.rerace", ctx, wire, n] => {
+                // n threads present the same request to codecs sharing one server context, at the same time
+                let (Some(Obj::SsCtx(c)), Some(w), Some(n)) = (self.objs.get(*ctx), unhex(wire), n.parse::<usize>().ok()) else { return "bad-op".into() };
+                crate::stream::ss::race(c, &w, n)
+            }
+            ["ssu.par", ..] => {
+                let (Some(cipher), Some(pw), Some(threads), Some(packets), Some(seed)) = (kv(t, "cipher"), kv(t, "password"), kv(t, "threads").and_then(|x| x.parse::<usize>().ok()), kv(t, "packets").and_then(|x| x.parse::<usize>().ok()), kv(t, "seed").and_then(|x| x.parse::<u64>().ok())) else { return "bad-op".into() };
+                crate::ssudp::par(&self.rt, cipher, pw, threads, packets, seed)
+            }
             ["ss.new", name, ctx, addr, ..] => {
                 let a = if *addr == "-" { None } else { parse_addr(addr) };
                 let Some(Obj::SsCtx(c)) = self.objs.get(*ctx) else { return "bad-op".into() };
@@ -413,5 +422,6 @@ fn tcp_script(t: &[&str], salt: u64) -> Option<crate::e2e::TcpScript> {
         target_closes_first: kv(t, "close") == Some("target"),
         target: kv(t, "target").unwrap_or("up").to_owned(),
         cut_after: kv(t, "cut").and_then(|x| x.parse().ok()),
+        reset: kv(t, "reset").map(|x| x.to_owned()),
     })
 }
